@@ -78,7 +78,10 @@ static mpq_QSdata *build(void)
 	O->A.matcols = NC; O->A.matrows = NR; O->A.matcolsize = NC; O->A.matsize = MS; O->A.matfree = 2;
 	O->A.matcnt = qsv_alloc(sizeof(int) * NC); O->A.matbeg = qsv_alloc(sizeof(int) * NC);
 	O->A.matind = qsv_alloc(sizeof(int) * MS); O->A.matval = qsv_numarray(MS);
-	O->colnames = 0; O->rownames = 0;
+	/* names exist in every problem built through the API or a reader (diagnostics print them) */
+	O->colnames = qsv_alloc(sizeof(char *) * NS); O->rownames = qsv_alloc(sizeof(char *) * NR);
+	for (j = 0; j < NS; j++) { O->colnames[j] = qsv_alloc(2); O->colnames[j][0] = 'x'; O->colnames[j][1] = 0; }
+	for (i = 0; i < NR; i++) { O->rownames[i] = qsv_alloc(2); O->rownames[i][0] = 'c'; O->rownames[i][1] = 0; }
 	for (j = 0; j < NS; j++) { smap[j] = logicals_first ? NR + j : j; O->structmap[j] = smap[j]; }
 	for (i = 0; i < NR; i++) { rmap[i] = logicals_first ? i : NS + i; O->rowmap[i] = rmap[i]; }
 	for (i = 0; i < NR; i++) for (j = 0; j < NC; j++) A[i][j] = 0;
@@ -133,8 +136,8 @@ void harness(void)
 	mpq_t *x = qsv_numarray(NC), *y = qsv_numarray(NR);
 	int i, j, ret;
 	B.nstruct = NS; B.nrows = NR; B.cstat = qsv_alloc(NS); B.rstat = qsv_alloc(NR);
-	for (j = 0; j < NS; j++) { 		B.cstat[j] = (char) pick(0, 5); }
-	for (i = 0; i < NR; i++) { 		B.rstat[i] = (char) pick(0, 5); }
+	for (j = 0; j < NS; j++) { 		B.cstat[j] = (char) ('0' + pick(0, 4));	/* '0'..'3' are the documented codes, '4' is illegal */ }
+	for (i = 0; i < NR; i++) { 		B.rstat[i] = (char) ('0' + pick(0, 3)); }
 	for (j = 0; j < NC; j++) { 		qsv_setnum(x[j], (int) pick(-2 * VMAX, 2 * VMAX)); }
 	for (i = 0; i < NR; i++) { 		qsv_setnum(y[i], (int) pick(-VMAX, VMAX)); }
 	ret = QSexact_optimal_test(p, x, y, &B);
